@@ -266,6 +266,10 @@ func vRunCase(c *vCase, h func()) (out vOutcome) {
 	case vAssertFail:
 		out.Outcome = "assert"
 		out.Msg = p.msg
+		if vS.failed != nil {
+			// the first assertion that failed, in whichever thread (the engine's path ends there)
+			out.Msg = vS.failed.msg
+		}
 	case vAssumeFail:
 		out.Outcome = "assume-false"
 	default:
